@@ -8,13 +8,13 @@ LIB_SRCS = ['Lib/core/ctx.c', 'Lib/core/mod.c', 'Lib/core/ps.c', 'Lib/core/evts.
             'Lib/core/fs/fs_noop.c', 'Lib/core/poll/epoll.c', 'Lib/core/poll/cmn_linux.c', 'Lib/structs/map.c',
             'Lib/structs/queue.c', 'Lib/structs/stack.c', 'Lib/structs/list.c', 'Lib/structs/bst.c', 'Lib/mem/mem.c',
             'Lib/thpool/thpool.c', 'Lib/utils/mem.c', 'Lib/utils/log.c', 'Lib/utils/utils.c']
-HARNESS_EXTRA = ['-Wl,--wrap=pthread_setspecific,--wrap=pipe,--wrap=close,--wrap=dup,--wrap=poll_wait', '-lpthread', '-ldl']
+HARNESS_EXTRA = ['-Wl,--wrap=pthread_setspecific,--wrap=pipe,--wrap=close,--wrap=dup,--wrap=poll_wait,--wrap=m_thpool_add,--wrap=m_thpool_free', '-lpthread', '-ldl']
 DEFINES = ['LIBMODULE_LOG_CTX=CORE']
 model_input = corelib.model_input
 project = corelib.project_all
 project_pair = corelib.project_pair
 FULL_ALPHABET = ['ctx', 'reg', 'reg', 'life', 'life', 'life', 'loop', 'loop', 'ps', 'ps', 'sub', 'become', 'stash', 'batch',
-                 'tb', 'fd', 'fd', 'tmr', 'srclen', 'errno', 'flags', 'prio', 'pill', 'tick', 'burst', 'foreign', 'src2']
+                 'tb', 'fd', 'fd', 'tmr', 'srclen', 'errno', 'flags', 'prio', 'pill', 'tick', 'burst', 'foreign', 'src2', 'task']
 
 
 def gen_fragments():
